@@ -20,7 +20,7 @@ echo "$id: compiles, repository tests pass"
 ( cd $tmp/wt && go build -o $tmp/goit . )
 demo=$(ls $S/demo* 2>/dev/null | head -1)
 case "$demo" in
-  *.sh) if sh $demo $tmp/goit >/dev/null 2>&1; then echo "$id: demonstration PASSES with the change (unexpected)"; else echo "$id: demonstration fails with the change (as intended)"; fi;;
+  *.sh) if sh $demo $tmp/goit >/dev/null 2>&1; then echo "$id: demonstration PASSES with the change (unexpected)"; echo "$id	-	$tier	dormant	0 violations	the demonstration passes with the change applied to the current tree" >> $V/seeded/RESULTS.raw; else echo "$id: demonstration fails with the change (as intended)"; fi;;
   *_test.go) echo "$id: go-test demonstration (see meta.json)";;
 esac
 prop=$(python3 -c "import json;print(json.load(open('$S/meta.json'))['property'])")
